@@ -52,10 +52,24 @@ func runConfig(c cors.Config) (accepted bool, errs SL, typedOK, nilMW bool, cfgO
 		}
 		return
 	}
+	msg0 := err.Error()
+	var first []error
 	for e := range cfgerrors.All(err) {
 		x, ok := errSX(e)
 		errs = append(errs, x)
 		typedOK = typedOK && ok
+		first = append(first, e)
+	}
+	// traversing the error does not consume or alter it: a second traversal yields the same errors, the message is unchanged
+	i := 0
+	for e := range cfgerrors.All(err) {
+		if i >= len(first) || first[i] != e {
+			typedOK = false
+		}
+		i++
+	}
+	if i != len(first) || err.Error() != msg0 {
+		typedOK = false
 	}
 	// Reconfigure must agree with NewMiddleware
 	var z cors.Middleware
@@ -103,6 +117,37 @@ func famConfig(o *Out, r R, tier string) {
 		c := cloneCfg(base)
 		c.RequestHeaders = []string{d, "X-Foo"}
 		emit("single-reqhdr-defect", c)
+	}
+	// forbidden by prefix at every length around the lengths of the listed forbidden names
+	for _, pre := range []string{"sec-", "Sec-", "proxy-", "PROXY-"} {
+		for l := 0; l <= 70; l++ {
+			c := cloneCfg(base)
+			c.RequestHeaders = []string{pre + strings.Repeat("a", l)}
+			emit("single-reqhdr-defect", c)
+		}
+	}
+	for _, d := range hdrNamesUnicodeFold {
+		c := cloneCfg(base)
+		c.RequestHeaders = []string{"X-Foo", d}
+		emit("single-reqhdr-defect", c)
+		c = cloneCfg(base)
+		c.ResponseHeaders = []string{d, "X-Foo"}
+		emit("single-reshdr-defect", c)
+	}
+	for _, d := range methodsUnicodeFold {
+		c := cloneCfg(base)
+		c.Methods = []string{d}
+		emit("single-method-defect", c)
+	}
+	// valid names of every length (case conversion buffers), in four spellings
+	for l := 1; l <= 140; l += 1 + l/24 {
+		for style := 0; style < 5; style++ {
+			c := cloneCfg(base)
+			c.RequestHeaders = []string{"x-" + genTokenBody(r, l, style)}
+			c.ResponseHeaders = []string{"X-" + genTokenBody(r, l, style)}
+			c.Methods = []string{"M" + genTokenBody(r, l, style)}
+			emit("name-lengths", c)
+		}
 	}
 	for _, d := range resHdrsDefect {
 		c := cloneCfg(base)
